@@ -133,6 +133,18 @@ func (eng *Engine) Verify(fn *ssa.Function, spec *FuncSpec, tags map[string]bool
 		}
 		eng.assumes["ghost request context is empty when a route handler starts ("+res.Func+")"] = true
 	}
+	// axioms about package-level variables of the function's own package
+	if fn.Pkg != nil {
+		if ps := eng.ld.pkgSpecs[fn.Pkg.Pkg.Path()]; ps != nil {
+			for _, ax := range ps.Axioms {
+				for _, c := range ax.Clauses {
+					ax.PkgPath = ps.PkgPath
+					e.s.assert(e.evalSpec(eng.ld.specFunc(ax, c), nil, h0, nil))
+					eng.assumes["axiom assumed: "+strings.TrimPrefix(c.Text, "() :: ")] = true
+				}
+			}
+		}
+	}
 	var reqs []string
 	if spec != nil {
 		for _, c := range spec.Clauses {
